@@ -268,13 +268,53 @@ theorem C03_create_stmt_false : ¬ C03_create_stmt := by
   rw [show ([Seg.key ['x']] ++ [Seg.idx 0] : Pos) = [.key ['x'], .idx 0] from rfl, h1] at h2
   cases h2
 
-/-- **full statement (read back).**  After a successful `d[xpath] = v` the value reads back
-through the same path with `new()` replaced by `last()`.  (Proved for the shapes above:
-`C03_read_back_names`, `C03_read_back_elem`.) -/
+/-- **unrestricted statement (read back).**  After *any* successful `d[xpath] = v` the value reads
+back through the same path with `new()` replaced by `last()`.  Not provable in this generality: it
+quantifies over every path text, also those outside the honoured grammar (`c[new()][0]/m` of
+finding C03-b stores without raising and reads back something else) and over names that contain
+the text `new()` themselves (which `replace` rewrites).  Proved for every path of the honoured
+grammar whose names are free of `(`: `C03_read_back`. -/
 def C03_read_back_stmt : Prop :=
   ∀ (t t' v : Val) (xp : Str) (fuel : Nat),
     setItem fuel t xp v = (t', .ok ()) →
     ∃ n, ∀ f ≥ n, (getItem f t' (replace sNew sLast xp)).2 = .ok v
+
+/-- **C03 (read back, every path of `C03_create_partial`).**  After the creation
+`d[//…q…/s/steps…] = v` (any path of the honoured grammar whose first step is below a dict: names,
+`n[new()]`, `n[0]`, `n[len]` in any alternation, any length), `d[xpath.replace("new()", "last()")]`
+returns `v` and leaves the tree as it is.  Hypothesis added to those of `C03_create_partial`: no
+name on the path contains `(` (`NoParenPos q`, `NoParen x.nameOf`) — otherwise `replace` could
+rewrite a *name* that contains the text `new()`. -/
+theorem C03_read_back (cls : Cls) (kvs : List (Str × Val)) (q : Pos) (kcls : Cls) (nkvs : List (Str × Val))
+    (s : CStep) (steps : List CStep) (v cur' t' : Val) (fuel : Nat)
+    (hp : PlainPos q) (hget : getAt (.dict cls kvs) q = some (.dict kcls nkvs))
+    (hfirst : s.first) (hidx : ∀ e, s ≠ .idx e) (hsteps : ∀ x ∈ steps, x.later)
+    (hnq : NoParenPos q) (hnp : ∀ x ∈ s :: steps, NoParen x.nameOf)
+    (hcreate : createIn (.dict kcls nkvs) (s :: steps) v = some cur')
+    (hset : setAt (.dict cls kvs) q cur' = some t') (hf : fuel ≥ 2 * (q.length + steps.length + 1)) :
+    getItem fuel t' (replace sNew sLast (slash ++ renderPos q ++ (s :: steps).flatMap renderCStep)) = (t', .ok v) :=
+  getItem_readback_steps cls kvs q kcls nkvs s steps v cur' t' fuel hp hget hfirst hidx hsteps hnq hnp hcreate hset hf
+
+/-- the text that is read: every `new()` index has become `last()`, nothing else has changed -/
+theorem C03_read_back_path (q : Pos) (steps : List CStep) (hq : NoParenPos q) (hsteps : ∀ x ∈ steps, x.noParen) :
+    replace sNew sLast (slash ++ renderPos q ++ steps.flatMap renderCStep)
+      = slash ++ renderPos q ++ (steps.map lastify).flatMap renderCStep :=
+  replace_path q steps hq hsteps
+
+/-- **create, then read back**: both halves of "after `d[xpath] = v` … `d[xpath]` is `v`" for the
+paths of `C03_create_partial` in one statement. -/
+theorem C03_create_then_read (cls : Cls) (kvs : List (Str × Val)) (q : Pos) (kcls : Cls) (nkvs : List (Str × Val))
+    (s : CStep) (steps : List CStep) (v cur' t' : Val) (fuel : Nat)
+    (hp : PlainPos q) (hget : getAt (.dict cls kvs) q = some (.dict kcls nkvs))
+    (hfirst : s.first) (hidx : ∀ e, s ≠ .idx e) (hsteps : ∀ x ∈ steps, x.later) (hg : GOk (s :: steps))
+    (hnq : NoParenPos q) (hnp : ∀ x ∈ s :: steps, NoParen x.nameOf)
+    (hcreate : createIn (.dict kcls nkvs) (s :: steps) v = some cur')
+    (hset : setAt (.dict cls kvs) q cur' = some t')
+    (hf : fuel ≥ 4 * (q.length + 1)) (hf2 : fuel ≥ 2 * (q.length + steps.length + 1)) :
+    let xp := slash ++ renderPos q ++ (s :: steps).flatMap renderCStep
+    setItem fuel (.dict cls kvs) xp v = (t', .ok ()) ∧ getItem fuel t' (replace sNew sLast xp) = (t', .ok v) :=
+  ⟨C03_create_partial cls kvs q kcls nkvs s steps v cur' t' fuel hp hget hfirst hidx hsteps hg hcreate hset hf,
+   C03_read_back cls kvs q kcls nkvs s steps v cur' t' fuel hp hget hfirst hidx hsteps hnq hnp hcreate hset hf2⟩
 
 /-- **full statement (no misplacement / no debris).**  A creation that is refused leaves the tree
 as it was.  False on the pinned tree: see the two counter-examples. -/
@@ -383,6 +423,48 @@ example : setItem 40 exTree2 ['/', '/', 'a', '/', 'k', '[', 'n', 'e', 'w', '(', 
         · exact pk_x
         · exact ⟨pk_l, Or.inr rfl⟩)
     (by simp [GOk, CStep.isName]) rfl (by decide) (by decide)
+
+/-- read-back of `d['//a/k[new()]/x/l[0]'] = 5` through `'//a/k[last()]/x/l[0]'` (`C03_read_back`: wrap,
+name, fresh one-element list) -/
+theorem np (c : Char) (h : c ≠ '(' := by decide) : NoParen [c] := by
+  intro x hx; simp at hx; subst hx; exact h
+example : replace sNew sLast ['/', '/', 'a', '/', 'k', '[', 'n', 'e', 'w', '(', ')', ']', '/', 'x', '/', 'l', '[', '0', ']']
+    = ['/', '/', 'a', '/', 'k', '[', 'l', 'a', 's', 't', '(', ')', ']', '/', 'x', '/', 'l', '[', '0', ']'] := by decide
+example : getItem 40 (.dict .n0 [(['a'], .dict .n0 [(['l'], .list .n0 [.int 1]),
+        (['k'], .list .n0 [.str ['s'], .dict .n0 [(['x'], .dict .n0 [(['l'], .list .n0 [.int 5])])]])])])
+      (replace sNew sLast
+        ['/', '/', 'a', '/', 'k', '[', 'n', 'e', 'w', '(', ')', ']', '/', 'x', '/', 'l', '[', '0', ']'])
+    = (.dict .n0 [(['a'], .dict .n0 [(['l'], .list .n0 [.int 1]),
+        (['k'], .list .n0 [.str ['s'], .dict .n0 [(['x'], .dict .n0 [(['l'], .list .n0 [.int 5])])]])])], .ok (.int 5)) :=
+  C03_read_back .n0 _ [.key ['a']] .n0 _ (.elem ['k'] ['n', 'e', 'w', '(', ')']) [.name ['x'], .elem ['l'] ['0']] (.int 5) _ _ 40
+    ⟨pk_a, trivial⟩ (rfl : getAt exTree2 _ = _) pk_k (by intro e h; cases h)
+    (by intro x hx; simp at hx; rcases hx with rfl | rfl
+        · exact pk_x
+        · exact ⟨pk_l, Or.inr rfl⟩)
+    ⟨np 'a', trivial⟩
+    (by intro x hx; simp at hx; rcases hx with rfl | rfl | rfl
+        · exact np 'k'
+        · exact np 'x'
+        · exact np 'l')
+    rfl (by decide) (by decide)
+
+/-- read-back of `d['//a/n/m[new()]/x'] = 5` through `'//a/n/m[last()]/x'` (names, element, name) -/
+example : getItem 40 (.dict .n0 [(['a'], .dict .n0 [(['l'], .list .n0 [.int 1]), (['k'], .str ['s']),
+        (['n'], .dict .n0 [(['m'], .list .n0 [.dict .n0 [(['x'], .int 5)]])])])])
+      (replace sNew sLast ['/', '/', 'a', '/', 'n', '/', 'm', '[', 'n', 'e', 'w', '(', ')', ']', '/', 'x'])
+    = (.dict .n0 [(['a'], .dict .n0 [(['l'], .list .n0 [.int 1]), (['k'], .str ['s']),
+        (['n'], .dict .n0 [(['m'], .list .n0 [.dict .n0 [(['x'], .int 5)]])])])], .ok (.int 5)) :=
+  C03_read_back .n0 _ [.key ['a']] .n0 _ (.name ['n']) [.elem ['m'] ['n', 'e', 'w', '(', ')'], .name ['x']] (.int 5) _ _ 40
+    ⟨pk_a, trivial⟩ (rfl : getAt exTree2 _ = _) pk_n (by intro e h; cases h)
+    (by intro x hx; simp at hx; rcases hx with rfl | rfl
+        · exact ⟨pk_m, Or.inl (by decide)⟩
+        · exact pk_x)
+    ⟨np 'a', trivial⟩
+    (by intro x hx; simp at hx; rcases hx with rfl | rfl | rfl
+        · exact np 'n'
+        · exact np 'm'
+        · exact np 'x')
+    rfl (by decide) (by decide)
 
 /-- lists inside lists: `x` is an `n0list` holding an `n0list`, `p` a plain list holding a plain list -/
 def exTree3 : Val :=
